@@ -273,10 +273,24 @@ Fixpoint dany (fuel : nat) (dep : N) (id : N) : dec aval :=
 (* destination map[string]any (nil map): only a compound fits; its values are decoded as interface{} *)
 Definition dec_any (fuel : nat) (id : N) : dec aval := dany fuel max_open id.
 
+(* destination map[string]any (nil map): the text tools/gotrans/c03.go generates (Gen/C03gen.v gen_map): every tag but
+   TagCompound ends in the error of its kind test, after the reads that precede it *)
 Definition dmap (fuel : nat) (dep : N) (id : N) : dec aval :=
-  if id =? idCompound then dany fuel dep id
-  else if id =? idEnd then Fail eEND
-  else Fail eType.
+      if id =? idEnd then Fail eEND
+      else if id =? idByte then _ <- rd_i8 ;; Fail eType
+      else if id =? idShort then _ <- rd_i16 ;; Fail eType
+      else if id =? idInt then _ <- rd_i32 ;; Fail eType
+      else if id =? idFloat then _ <- rd_i32 ;; Fail eType
+      else if id =? idLong then _ <- rd_i64 ;; Fail eType
+      else if id =? idDouble then _ <- rd_i64 ;; Fail eType
+      else if id =? idString then _ <- rd_string ;; Fail eType
+      else if id =? idByteArray then n <- rd_i32 ;; if (n <? 0)%Z then Fail eNeg else ReadFull (Z.to_N n) (fun bs => Fail eType)
+      else if id =? idIntArray then n <- rd_i32 ;; if (n <? 0)%Z then Fail eNeg else Fail eType
+      else if id =? idLongArray then n <- rd_i32 ;; if (n <? 0)%Z then Fail eNeg else Fail eType
+      else if id =? idList then if dep =? 0 then Fail eDepth else et <- rd_u8 ;; n <- rd_i32 ;; if (n <? 0)%Z then Fail eNeg else Fail eType
+      else if id =? idCompound then match fuel with O => NoFuel | S f => if dep =? 0 then Fail eDepth else m <- comp_loop f rd_tag (dany f (dep - 1)) (fun k v m => map_set k v m) [] ;; Ret (AMap m) end
+      else Fail eUnknown
+.
 Definition dec_map (fuel : nat) (id : N) : dec aval := dmap fuel max_open id.
 
 (* Decoder.rawRead: read and discard one value *)
@@ -356,6 +370,7 @@ Definition decode_raw_fast (f : fmt) (fuel : nat) (s : list N) : fres (list N * 
   end.
 
 (* StringifiedMessage.encode: binary -> text; only the control skeleton (bytes consumed, errors) *)
+(* the body is the text tools/gotrans/c03.go generates from StringifiedMessage.encode (Gen/C03gen.v gen_text) *)
 Fixpoint dtext (fuel : nat) (dep : N) (id : N) : dec unit :=
   match fuel with
   | O => NoFuel
@@ -363,25 +378,15 @@ Fixpoint dtext (fuel : nat) (dep : N) (id : N) : dec unit :=
       if id =? idByte then _ <- rd_u8 ;; Ret tt
       else if id =? idString then _ <- rd_string ;; Ret tt
       else if id =? idShort then _ <- rd_i16 ;; Ret tt
-      else if (id =? idInt) || (id =? idFloat) then _ <- rd_i32 ;; Ret tt
-      else if (id =? idLong) || (id =? idDouble) then _ <- rd_i64 ;; Ret tt
-      else if id =? idByteArray then
-        n <- rd_i32 ;;
-        if (n <? 0)%Z then Fail eNeg                                     (* since fix 2b85ff8 *)
-        else _ <- rep f (Z.to_N n) rd_u8 [] ;; Ret tt                    (* one ReadByte per element *)
-      else if id =? idIntArray then
-        n <- rd_i32 ;;
-        if (n <? 0)%Z then Fail eNeg else _ <- rep f (Z.to_N n) rd_i32 [] ;; Ret tt
-      else if id =? idLongArray then
-        n <- rd_i32 ;;
-        if (n <? 0)%Z then Fail eNeg else _ <- rep f (Z.to_N n) rd_i64 [] ;; Ret tt
-      else if id =? idList then
-        if dep =? 0 then Fail eDepth else
-        et <- rd_u8 ;; n <- rd_i32 ;;
-        if (n <? 0)%Z then Fail eNeg else _ <- rep f (Z.to_N n) (dtext f (dep - 1) et) [] ;; Ret tt
-      else if id =? idCompound then
-        if dep =? 0 then Fail eDepth else
-        comp_loop f rd_tag (dtext f (dep - 1)) (fun _ _ a => a) tt
+      else if id =? idInt then _ <- rd_i32 ;; Ret tt
+      else if id =? idFloat then _ <- rd_i32 ;; Ret tt
+      else if id =? idLong then _ <- rd_i64 ;; Ret tt
+      else if id =? idDouble then _ <- rd_i64 ;; Ret tt
+      else if id =? idByteArray then n <- rd_i32 ;; if (n <? 0)%Z then Fail eNeg else _ <- rep f (Z.to_N n) rd_u8 [] ;; Ret tt
+      else if id =? idIntArray then n <- rd_i32 ;; if (n <? 0)%Z then Fail eNeg else _ <- rep f (Z.to_N n) rd_i32 [] ;; Ret tt
+      else if id =? idLongArray then n <- rd_i32 ;; if (n <? 0)%Z then Fail eNeg else _ <- rep f (Z.to_N n) rd_i64 [] ;; Ret tt
+      else if id =? idList then if dep =? 0 then Fail eDepth else et <- rd_u8 ;; n <- rd_i32 ;; if (n <? 0)%Z then Fail eNeg else _ <- rep f (Z.to_N n) (dtext f (dep - 1) et) [] ;; Ret tt
+      else if id =? idCompound then if dep =? 0 then Fail eDepth else comp_loop f rd_tag (dtext f (dep - 1)) (fun _ _ a => a) tt
       else Fail eUnknown
   end.
 Definition dec_text (fuel : nat) (id : N) : dec unit := dtext fuel max_open id.
